@@ -5,6 +5,8 @@ mod core;
 mod model;
 mod prng;
 mod udp_store;
+mod http_store;
+mod ws_store;
 
 use crate::core::*;
 use std::collections::BTreeMap;
@@ -35,6 +37,8 @@ macro_rules! dispatch {
     ($name:expr, $f:ident, $($args:expr),*) => {
         match $name {
             "udp_store" => $f::<udp_store::UdpStore>($($args),*),
+            "http_store" => $f::<http_store::HttpStore>($($args),*),
+            "ws_store" => $f::<ws_store::WsStore>($($args),*),
             other => {
                 eprintln!("HARNESS-ERROR: unknown harness {:?}", other);
                 std::process::exit(2);
